@@ -38,7 +38,7 @@ Extraction "../ocaml/model.ml"
   OpenMsg.o_software_version OpenMsg.notif_check OpenMsg.n_code OpenMsg.n_subcode OpenMsg.n_data OpenMsg.notif_build
   OpenMsg.keepalive_check OpenMsg.keepalive_build OpenMsg.rr_parse OpenMsg.msg_dispatch OpenMsg.ob_new OpenMsg.ob_set_asn
   OpenMsg.ob_add_cap OpenMsg.ob_four_octet OpenMsg.ob_add_mp OpenMsg.ob_add_addpath OpenMsg.ob_finish Wire.index
-  Fsm.fsm_step Fsm.handle_msg Fsm.tick_msg Fsm.init Fsm.dummy_open Fsm.sent_open_caps Fsm.parse_frame Fsm.feed Fsm.read_frame Fsm.read_all Fsm.read_message Fsm.upd_st Fsm.upd_conn Fsm.push_app Negotiate.get_addpath
+  Fsm.fsm_step Fsm.handle_msg Fsm.tick_msg Fsm.init Fsm.dummy_open Fsm.sent_open_caps Fsm.parse_frame Fsm.feed Fsm.read_frame Fsm.read_all Fsm.read_message Fsm.attach_stream Fsm.upd_st Fsm.upd_conn Fsm.push_app Negotiate.get_addpath
   Negotiate.sc_modern
   Mrt.rib_entries Mrt.tables Mrt.messages
   Comm.comm_from_raw Comm.comm_raw Comm.comm_display Comm.comm_from_str Comm.comm_asn Comm.comm_to_wellknown
